@@ -398,6 +398,11 @@ def write_evidence(ctx: Ctx, n_viol: int, known_hit: T.List[str]) -> None:
     for cls, lst in sorted(ev.samples.items()):
         for s in lst:
             samples.append({'class': cls, 'case': _shorten(s)})
+    if n_viol and not samples:
+        # a run that failed before completing any case: the failing cases are what was explored
+        for sig, f in sorted(ctx.failures.items()):
+            samples.append({'class': 'failing:' + sig, 'case': _shorten(f.case)})
+        ev.evaluations = max(ev.evaluations, len(ctx.failures))
     cov: T.Dict[str, T.Any] = {
         'evaluations': ev.evaluations,
         'distinct_nontrivial': ev.distinct_nontrivial,
@@ -425,8 +430,13 @@ def write_evidence(ctx: Ctx, n_viol: int, known_hit: T.List[str]) -> None:
         'wall_s': round(time.time() - ctx.t0, 2),
         'violations': n_viol,
     }
-    validate_evidence(doc)
-    evdir = os.environ.get('VERIF_EVIDENCE_DIR') or os.path.join(VERIF, 'evidence')
+    try:
+        validate_evidence(doc)
+    except HarnessError:
+        if not n_viol:
+            raise
+        # violations were found and printed; thin evidence must not turn the verdict into a harness error
+    evdir =os.environ.get('VERIF_EVIDENCE_DIR') or os.path.join(VERIF, 'evidence')
     os.makedirs(evdir, exist_ok=True)
     path = os.path.join(evdir, f'{ctx.prop}.json')
     tmp = path + '.tmp'
